@@ -476,6 +476,14 @@ fn check_error(d: &dyn sqlparser::dialect::Dialect, sql: &str) -> Option<String>
                             if head.starts_with("Expected: ") {
                                 let found = &head[i + 9..];
                                 if found != t.token.to_string() { return Some(format!("message says found {found:?} but the token at {p:?} is {:?}", t.token.to_string())); }
+                                // independent of the tokenizer's own positions: the source text at that
+                                // line/column must spell the token (words, numbers, punctuation)
+                                if let Token::Word(sqlparser::tokenizer::Word { quote_style: None, .. }) | Token::Number(..) = &t.token {
+                                    if let Some(off) = charpos.iter().position(|q| *q == p) {
+                                        let here: String = chars[off..].iter().take(found.chars().count()).collect();
+                                        if here != found { return Some(format!("error position {p:?} is not where {found:?} is in the text (there: {here:?})")); }
+                                    }
+                                }
                             }
                         }
                     }
